@@ -299,9 +299,27 @@ class Session:
             if core:
                 st.core_undecided += 1
             st.notes.append('undecided%s: %s' % (' (core)' if core else '', label))
+        else:
+            # a counterexample: the caller must report it (finding), dismiss it explicitly (dismiss) or fail - the harness ends a
+            # case that leaves a `sat` answer unexamined with a harness error instead of passing silently
+            if not hasattr(st, 'sat_labels'):
+                st.sat_labels = []
+            st.sat_labels.append(label)
         if sample is not None and len(st.samples) < 12:
             st.samples.append(dict(label=label, kind=kind, result=res, **sample))
         return res, model
+
+    def dismiss(self, label, reason):
+        """A `sat` answer that is not a violation by itself (e.g. superseded by a stronger reading that was then discharged)."""
+        st = self.stats
+        if label in getattr(st, 'sat_labels', []):
+            st.sat_labels.remove(label)
+        st.notes.append('sat dismissed: %s (%s)' % (label, reason))
+
+    def dismiss_last(self, reason):
+        st = self.stats
+        if getattr(st, 'sat_labels', []):
+            st.notes.append('sat dismissed: %s (%s)' % (st.sat_labels.pop(), reason))
 
     def retract(self, label, kind='', core=True):
         """Undo the bookkeeping of an attempt that came back 'unknown' and is about to be re-tried with an
